@@ -1460,11 +1460,86 @@ class Interp:
         return IntVal.top(IntTy(64, True), deps=deps_of(v), tags=frozenset([("discr_of_top", ty_str(getattr(v, "ty", None)))]))
 
     # ----------------------------------------------------------------- terminators
+    def _loop_state_determinate(self, st, fr, b):
+        """every value the loop at block b of frame fr can observe (live locals, and what they reach through references) is a constant or a
+        fixed function of the input atoms, so that equal abstract states are equal concrete states"""
+        from ..cfg import live_in
+        live = live_in(fr.fn)[b]
+        seen = set()
+
+        def ok(v):
+            if v is None or isinstance(v, (int, str, bool, float, frozenset)):
+                return True
+            if isinstance(v, (tuple, list)):
+                return all(ok(x) for x in v)
+            if isinstance(v, dict):
+                return all(ok(x) for x in v.values())
+            if isinstance(v, IntVal):
+                return v.is_const() or v.lin is not None or (v.bits is not None and all(e is not None for e in v.bits))
+            if isinstance(v, FloatVal):
+                return v.const is not None or v.term is not None
+            if isinstance(v, (AdtVal, TupleVal)):
+                return all(ok(f) for f in v.fields)
+            if isinstance(v, ArrayVal):
+                if v.elems is not None:
+                    return all(ok(e) for e in v.elems)
+                return False
+            if isinstance(v, RefVal):
+                if not v.mut:
+                    return ok(v.meta)   # shared borrow, live across both visits: the pointee cannot have been written in between
+                loc = v.loc
+                key = loc[:3] if loc[0] == "L" else loc[:2]
+                if key in seen:
+                    return ok(v.meta)
+                seen.add(key)
+                if loc[0] == "H":
+                    return ok(st.heap.get(loc[1])) and ok(v.meta)
+                try:
+                    tgt = st.frame(loc[1]).locals[loc[2]]
+                except (KeyError, IndexError, TypeError):
+                    return False
+                return ok(tgt) and ok(v.meta)
+            if isinstance(v, Choice):
+                return all(ok(x) for _d, x in v.alts)
+            if isinstance(v, Opaque):
+                return all(ok(x) for _k, x in v.data)
+            return False
+        return all(ok(fr.locals[i]) for i in live if i < len(fr.locals))
+
     def goto(self, st, fr, b):
         fr.block = b
         fr.si = 0
         n = fr.visits.get(b, 0) + 1
         fr.visits[b] = n
+        if n >= 8:
+            # non-progress detection: the complete state (all frames, reachable heap, path condition) at this block is identical to the
+            # state at its previous visit -> the deterministic program repeats the same iteration forever on every input of this path
+            try:
+                fpv = (st.visible_fp(len(st.frames)), len(st.pc.log))
+                hash(fpv)
+            except TypeError:
+                fpv = None
+            if fpv is not None and fr.visits.get(("fp", b)) == fpv and not self._loop_state_determinate(st, fr, b):
+                fpv = None   # equal abstract states that may stand for different concrete ones (unknown values): no verdict from this test
+            if fpv is not None:
+                if fr.visits.get(("fp", b)) == fpv:
+                    blk = fr.fn["blocks"][b]
+                    st.events.append({"kind": "hang", "fn": fr.fn["path"], "block": b,
+                                      "facts_len": len(st.pc.log)})
+                    st.status = "diverged"
+                    sp = {}
+                    for s_ in blk["stmts"]:
+                        if isinstance(s_, dict) and s_.get("span"):
+                            sp = s_["span"]
+                            break
+                    if not sp:
+                        for tv in (blk.get("term") or {}).values():
+                            if isinstance(tv, dict) and tv.get("span"):
+                                sp = tv["span"]
+                    self.obligation(st, fr, "%s|%s:%s|hang|" % (fr.fn["path"], sp.get("file", "?"), (sp.get("lo") or ["?"])[0]), False,
+                                    "the loop through bb%d repeats with a state identical to the previous iteration (no progress): it never ends" % b)
+                    return
+                fr.visits[("fp", b)] = fpv
         if n > self.opts.get("max_block_visits", 300):
             raise Inconclusive("loop bound exceeded in %s bb%d" % (fr.fn["path"], b))
 
